@@ -3,6 +3,7 @@ import Orx.IW.Outs
 import Orx.IW.NoLoss
 import Orx.Props.C07
 import Orx.GenThms.Loops
+import Orx.GenThms.Surface
 /-! # C04 Order: the shared iterator is one linearizable sequential cursor -/
 namespace Orx.Props.C04
 open Orx Orx.KS
@@ -112,5 +113,29 @@ theorem source_values_wrappers_are_single_pulls {ρ' : Type} (f : Nat) (it : ItH
   ⟨values_next f it, ids_and_values_next f it, wrappers_override_only_next.1, wrappers_override_only_next.2⟩
 
 end SourceWrappers
+
+section Surface
+open Orx.GenThms.Surface
+
+/-- `next`, `values`, `ids_and_values`, the loops and `has_more` are the trait's default bodies for every kind: no implementor of
+`ConcurrentIter` defines anything beyond the six required methods -/
+theorem source_views_and_loops_are_the_trait_defaults :
+    (implementors.all fun x => (fnsOf "ConcurrentIter" x).length == 1 &&
+      (fnsOf "ConcurrentIter" x).all (sameSet requiredConcurrentIter)) = true ∧
+    sameSet (implsOf "ConcurrentIter") implementors = true ∧
+    fnsOf "trait" "ConcurrentIter" = [["into_seq_iter", "next_id_and_value", "next_chunk", "buffered_iter", "next", "values",
+      "ids_and_values", "skip_to_end", "for_each", "enumerate_for_each", "fold", "try_get_len", "has_more"]] :=
+  Orx.GenThms.Surface.concurrent_iter_defaults_are_not_overridden
+
+/-- the std iterators the crate defines, and the methods each overrides -/
+theorem source_value_iterators_are_the_modelled_ones :
+    sameSet (implsOf "Iterator") ["BufferedIter", "Taken", "ConIterIdsAndValues", "ConIterValues"] = true ∧
+    fnsOf "Iterator" "BufferedIter" = [["next", "size_hint"]] ∧ fnsOf "Iterator" "Taken" = [["next", "size_hint"]] ∧
+    fnsOf "Iterator" "ConIterIdsAndValues" = [["next"]] ∧ fnsOf "Iterator" "ConIterValues" = [["next"]] ∧
+    sameSet (implsOf "ExactSizeIterator") ["BufferedIter", "Taken"] = true ∧
+    fnsOf "ExactSizeIterator" "BufferedIter" = [["len"]] ∧ fnsOf "ExactSizeIterator" "Taken" = [[]] :=
+  Orx.GenThms.Surface.the_iterators
+
+end Surface
 
 end Orx.Props.C04
